@@ -432,19 +432,53 @@ def _main(prop, tier, seed, nproc, spec, tmpdir, t_start):
             if bool(o.get('failures')) or bool(o.get('panic')):
                 continue
             keys = [k for k in c['inputs'] if k in ('mode', 'drm')]
-            if not keys or len(variants) > 400:
+            if len(variants) > 600:
                 continue
-            for m in range(6):
-                for flip in (False, True):
-                    inp = dict(c['inputs'])
-                    for k in keys:
-                        inp[k] = str(m)
-                    if flip:
-                        if 'neg' in inp:
-                            inp['neg'] = 'false' if inp['neg'] == 'true' else 'true'
-                        else:
-                            continue
-                    variants.append((i, {'harness': c['harness'], 'args': c['args'], 'inputs': inp}))
+            # the solver is free to pick operand exponents at the far ends of the range, where a wrong coefficient
+            # is masked by underflow/overflow: also replay with every Decimal operand's exponent moved to the middle
+            bases = [dict(c['inputs'])]
+            for alt in (sat_cases[i][1].get('alt_inputs') or []):
+                bases.append({k: str(v).lower() if isinstance(v, bool) else str(v) for k, v in alt.items()})
+            mid = dict(c['inputs'])
+            changed = False
+            for k in list(mid):
+                if k.endswith('hi') and (k[:-2] + 'lo') in mid:
+                    try:
+                        hi = int(mid[k])
+                    except ValueError:
+                        continue
+                    if (hi >> 61) & 3 != 3 and (hi >> 58) & 0x1f < 0x1e:
+                        nh = (hi & 0x8001FFFFFFFFFFFF) | (6176 << 49)
+                        if nh != hi:
+                            mid[k] = str(nh)
+                            changed = True
+            if changed:
+                bases.append(mid)
+            # de-duplicate
+            seen_b = set()
+            ub = []
+            for b in bases:
+                key = tuple(sorted(b.items()))
+                if key not in seen_b:
+                    seen_b.add(key)
+                    ub.append(b)
+            bases = ub
+            for bi, base in enumerate(bases):
+                if not keys:
+                    if bi > 0:
+                        variants.append((i, {'harness': c['harness'], 'args': c['args'], 'inputs': dict(base)}))
+                    continue
+                for m in range(6):
+                    for flip in (False, True):
+                        inp = dict(base)
+                        for k in keys:
+                            inp[k] = str(m)
+                        if flip:
+                            if 'neg' in inp:
+                                inp['neg'] = 'false' if inp['neg'] == 'true' else 'true'
+                            else:
+                                continue
+                        variants.append((i, {'harness': c['harness'], 'args': c['args'], 'inputs': inp}))
         if variants:
             vouts = native_run([v for _, v in variants], tmpdir) or []
             for (i, v), o in zip(variants, vouts):
